@@ -31,7 +31,7 @@ type c01wpath struct {
 }
 
 var c01wFilters = []string{"a", "a/b", "+", "+/b", "a/+", "#", "a/#", "a/b/#", "+/+", "b/#"}
-var c01wTopics = []string{"a", "a/b", "a/b/c", "b", "c/b"}
+var c01wTopics = []string{"a", "a/b", "a/b/c", "b", "c/b", "a/$b"} // (a level beginning with '$' below the first is an ordinary level)
 
 func c01wpaths() []c01wpath {
 	var out []c01wpath
